@@ -209,6 +209,43 @@ pub fn corr(ctx: &mut Ctx) {
         }
         ctx.line(req.trim_end(), &ans);
     }
+    // destination routing: `out_file` and the per-file step of collect_files, from the dump of the collected pairs
+    for _ in 0..(ctx.n / 4).max(20) {
+        let w = dir.join("route");
+        let _ = std::fs::remove_dir_all(&w);
+        std::fs::create_dir_all(&w).unwrap();
+        std::fs::write(w.join("p.png"), &probe.input).unwrap();
+        let pretend = rng.chance(1, 3);
+        let preserve = rng.chance(1, 3);
+        let (mut stdout, mut out, mut odir) = (false, "-".to_string(), "-".to_string());
+        match rng.below(4) { 0 => {} 1 => out = "o.png".into(), 2 => odir = "outdir".into(), _ => stdout = true }
+        let mut parts: Vec<Vec<String>> = vec![];
+        if pretend { parts.push(vec![if rng.bool() { "--pretend".into() } else { "-P".into() }]); }
+        if preserve { parts.push(vec![if rng.bool() { "--preserve".into() } else { "-p".into() }]); }
+        if stdout { parts.push(vec!["--stdout".into()]); }
+        if out != "-" { parts.push(vec!["--out".into(), out.clone()]); }
+        if odir != "-" { parts.push(vec!["--dir".into(), odir.clone()]); }
+        for a in (1..parts.len()).rev() { let b = rng.below(a as u64 + 1) as usize; parts.swap(a, b); }
+        let mut args: Vec<String> = parts.into_iter().flatten().collect();
+        args.push("-q".into());
+        args.push("p.png".into());
+        let r = run_bin(&w, &args);
+        let ans = match r.dump.lines().find(|l| l.starts_with("files ")) {
+            None => "err".to_string(),
+            Some(l) => {
+                // `files [(Path("p.png"), <OutFile debug>)]`
+                let o = l.splitn(2, "), ").nth(1).unwrap_or("").trim_end_matches(")]");
+                if o.starts_with("None") { "ok none".into() }
+                else if o.starts_with("StdOut") { "ok stdout".into() }
+                else if o.starts_with("Path") {
+                    let path = if o.contains("path: None") { "-".to_string() } else { o.split('"').nth(1).unwrap_or("?").to_string() };
+                    format!("ok path {} {}", path, o.contains("preserve_attrs: true") as u8)
+                } else { format!("unparsed {}", o) }
+            }
+        };
+        st.count("route_cases");
+        ctx.line(&format!("cli_route {} {} {} {} {} p.png", pretend as u8, stdout as u8, out, odir, preserve as u8), &ans);
+    }
     // forbidden / malformed strip and keep lists must be rejected
     for (tok, arg) in [("strip=IDAT", "IDAT"), ("strip=bKGD,PLTE", "bKGD,PLTE"), ("strip=safe,bKGD", "safe,bKGD"), ("strip=toolong", "toolong"), ("strip=tRNS", "tRNS")] {
         let r = run_bin(&dir, &["--strip".into(), arg.into(), "-P".into(), "-q".into(), "p.png".into()]);
@@ -250,7 +287,7 @@ pub fn oracle(ctx: &mut Ctx) {
         let case = gen_case(&mut rng, Profile::Any, false, 9);
         let fv = gen_flags(&mut rng);
         std::fs::write(w.join("in.png"), &case.input).unwrap();
-        let route = rng.below(5);
+        let route = rng.below(6);
         let mut args = fv.args.clone();
         args.push("-q".into());
         match route {
@@ -258,7 +295,18 @@ pub fn oracle(ctx: &mut Ctx) {
             1 => { args.push("--out".into()); args.push("out.png".into()); }
             2 => { args.push("--dir".into()); args.push("outdir".into()); }
             3 => args.push("--stdout".into()),
-            _ => args.push("--pretend".into()),
+            4 => args.push("--pretend".into()),
+            _ => {
+                // --pretend wins over every destination option, in either order
+                let dest: Vec<String> = match rng.below(3) {
+                    0 => vec!["--dir".into(), "outdir".into()],
+                    1 => vec!["--out".into(), "out.png".into()],
+                    _ => vec!["--stdout".into()],
+                };
+                let p = if rng.bool() { "--pretend" } else { "-P" };
+                if rng.bool() { args.push(p.into()); args.extend(dest); } else { args.extend(dest); args.push(p.into()); }
+                if rng.chance(1, 3) { args.push("--preserve".into()); }
+            }
         }
         args.push("in.png".into());
         st.count(&format!("route{}", route));
@@ -304,6 +352,21 @@ pub fn oracle(ctx: &mut Ctx) {
         }
         if route != 3 && !r.stdout.is_empty() {
             bad = Some("something was written to standard output without --stdout".into());
+        }
+        // no file appears anywhere but at the destination
+        let mut files: Vec<String> = vec![];
+        let mut stack = vec![w.clone()];
+        while let Some(d) = stack.pop() {
+            for e in std::fs::read_dir(&d).into_iter().flatten().flatten() {
+                let p = e.path();
+                if p.is_dir() { stack.push(p); } else { files.push(p.strip_prefix(&w).unwrap().to_string_lossy().into_owned()); }
+            }
+        }
+        files.retain(|f| f != "dump.txt"); // the option dump requested by this harness
+        files.sort();
+        let want: Vec<&str> = match route { 1 => vec!["in.png", "out.png"], 2 => vec!["in.png", "outdir/in.png"], _ => vec!["in.png"] };
+        if bad.is_none() && files != want {
+            bad = Some(format!("files after the run are {:?}, expected {:?}", files, want));
         }
         match bad {
             Some(m) => st.fail("routing", format!("{} ({})", m, args.join(" ")), replay),
